@@ -263,9 +263,14 @@ class FormulaManager(object):
         if not exponent.is_constant():
             raise PysmtValueError("The exponent of POW must be a constant.", exponent)
 
-        if base.is_constant():
-            val = cast(Union[int, fractions.Fraction], base.constant_value()) ** cast(Union[int, fractions.Fraction], exponent.constant_value())
-            return self.Real(val)
+        if (base.is_int_constant() and exponent.is_int_constant()) or \
+           (base.is_real_constant() and exponent.is_real_constant()):
+            b = fractions.Fraction(cast(Union[int, fractions.Fraction], base.constant_value()))
+            e = fractions.Fraction(cast(Union[int, fractions.Fraction], exponent.constant_value()))
+            # Fold only when the result is an exact rational: integer
+            # exponent, and no negative power of zero
+            if e.denominator == 1 and (b != 0 or e >= 0):
+                return self.Real(b ** int(e))
         return self.create_node(node_type=op.POW, args=(base, exponent))
 
     def Div(self, left: FNode, right: FNode) -> FNode:
